@@ -183,17 +183,33 @@ def lexicalVerdict (s : S) (op : String) (implOut : String) : Option String :=
     else none
   | _ => none
 
+/-- The request path is clean, has no "..", no trailing slash, and none of its PARENT components is a
+    symbolic link: only the final component may be one.  For downloads that case is what
+    validateSymlinkTarget is there for, so an escape through it is not the known parent-link finding. -/
+def onlyFinalLink (s : S) (op : String) : Bool :=
+  match tokens op with
+  | _ :: ph :: _ =>
+    match bytesOfHex ph with
+    | some praw =>
+      let path := unAt praw
+      let p := compsOf path
+      clean path == path && !trailingDir path && !p.contains 0 &&
+        (List.range (p.length - 1)).all (fun j => match s.fs.lookup (p.take (j + 1)) with | some .dir => true | _ => false)
+    | none => false
+  | _ => false
+
 def spec (s : S) (op : String) (implOut : String) : S × String :=
   let (s', _) := step s op
   let verdict : String :=
     match lexicalVerdict s op implOut with
     | some v => v
     | none =>
+    let readTag := if onlyFinalLink s op then "fail final-link-escape-read " else "fail escape-read "
     match tokens op, tokens implOut with
     | "dl" :: _, ["ok", what] =>
       (match what.splitOn ":" with
-       | ["file", q, _] => if physAllowed s.cfg q then "ok" else "fail escape-read " ++ q
-       | ["dir", q] => if physAllowed s.cfg q then "ok" else "fail escape-read " ++ q
+       | ["file", q, _] => if physAllowed s.cfg q then "ok" else readTag ++ q
+       | ["dir", q] => if physAllowed s.cfg q then "ok" else readTag ++ q
        | _ => "ok")
     | "ls" :: _, ["ok", names] =>
       (match names.splitOn "=" with
